@@ -30,8 +30,7 @@ class Projection:
         """
         tolerance1 = 1e-6
         umin, umax = curves[0].knotvector.limits
-        niter = 0
-        while True:
+        for niter in range(100):
             bezui = curves[0](initparam) - point
             dbezui = curves[1](initparam)
             ddbezui = curves[2](initparam)
@@ -46,7 +45,7 @@ class Projection:
                 return (umax,)
             if np.abs(diff) < tolerance1:
                 return [initparam]
-            niter += 1
+        return [initparam]
 
     @staticmethod
     def point_on_bezier(point: Tuple[float], bezier: Curve) -> Tuple[float]:
